@@ -2109,3 +2109,71 @@ mod tests {
         assert_eq!(stream.write(&data), Err(WriteError::Blocked));
     }
 }
+
+#[cfg(feature = "verif-hooks")]
+impl StreamsState {
+    /// Read-only projection for external verification harnesses
+    pub(in crate::connection) fn verif_probe(&self) -> crate::verif::StreamsProbe {
+        use crate::verif::{SendProbe, StreamsProbe};
+        let mut send: Vec<SendProbe> = self
+            .send
+            .iter()
+            .filter_map(|(id, s)| {
+                let s = s.as_ref()?;
+                Some(SendProbe {
+                    id: id.0,
+                    state: match s.state {
+                        SendState::Ready => 0,
+                        SendState::DataSent {
+                            finish_acked: false,
+                        } => 1,
+                        SendState::DataSent { finish_acked: true } => 2,
+                        SendState::ResetSent => 3,
+                    },
+                    max_data: s.max_data,
+                    offset: s.pending.offset(),
+                    unacked: s.pending.unacked(),
+                    fin_pending: s.fin_pending,
+                    connection_blocked: s.connection_blocked,
+                    stop_reason: s.stop_reason.map(|x| x.into_inner()),
+                    fully_acked: s.pending.is_fully_acked(),
+                })
+            })
+            .collect();
+        send.sort_by_key(|x| x.id);
+        let mut recv: Vec<_> = self
+            .recv
+            .iter()
+            .filter_map(|(id, r)| Some(r.as_ref()?.as_open_recv()?.verif_probe(id.0)))
+            .collect();
+        recv.sort_by_key(|x| x.id);
+        StreamsProbe {
+            next: self.next,
+            max: self.max,
+            max_remote: self.max_remote,
+            sent_max_remote: self.sent_max_remote,
+            allocated_remote_count: self.allocated_remote_count,
+            max_concurrent_remote_count: self.max_concurrent_remote_count,
+            next_remote: self.next_remote,
+            next_reported_remote: self.next_reported_remote,
+            send_streams: self.send_streams,
+            events: self.events.len(),
+            connection_blocked: self.connection_blocked.len(),
+            max_data: self.max_data,
+            receive_window: self.receive_window,
+            local_max_data: self.local_max_data,
+            sent_max_data: self.sent_max_data.into_inner(),
+            data_sent: self.data_sent,
+            data_recvd: self.data_recvd,
+            unacked_data: self.unacked_data,
+            send_window: self.send_window,
+            stream_receive_window: self.stream_receive_window,
+            receive_window_shrink_debt: self.receive_window_shrink_debt,
+            streams_blocked: self.streams_blocked,
+            send,
+            recv,
+            send_slots: self.send.len(),
+            recv_slots: self.recv.len(),
+        }
+    }
+}
